@@ -22,10 +22,12 @@ import (
 // C14 — Mutagen-style ignores follow last-match-wins and prune ignored
 // directories.
 //
-// (i)  real Ignorer.Ignore vs the reference of ignorex/mutagenref.go on random
-//      (pattern list, path, directory flag) triples;
-// (ii) real cold scans of random disk trees: snapshot vs independent walker
-//      driven by the reference, digest cache, inotify access sensor, VCS option.
+// Part (i): the real Ignorer.Ignore against the reference of
+// ignorex/mutagenref.go on random (pattern list, path, directory flag) triples.
+//
+// Part (ii): real cold scans of random disk trees — snapshot against the
+// independent walker driven by the reference, digest cache, inotify access
+// sensor, VCS option.
 func c14() {
 	r := vk.Start("C14", "exploration")
 	c14Match(r)
@@ -34,7 +36,14 @@ func c14() {
 	r.Assume("single-pattern matching of patterns containing '**' is delegated to github.com/bmatcuk/doublestar/v4 (third-party, pinned); all other patterns use the harness's own segment matcher")
 	r.Assume("the verdict of part (i) is the boolean 'ignored'; the nominal/unignored distinction has no effect under Mutagen-style syntax and is only counted")
 	r.Assume("scans run as root on ext4 scratch space; the inotify sensor watches every directory at or below a reference-ignored directory, its liveness control is the scan root plus every traversed directory")
-	r.Finish("(i) seeded random pattern lists x paths (two thirds derived from a pattern of the list) x directory flag; a pair is non-trivial if at least one pattern matches; distinct = (features of the deciding pattern, number of matching patterns bucket, deciding pattern is last, directory flag, depth, verdict). (ii) seeded random trees + lists scanned by the real core.Scan; a scan is non-trivial if a non-empty directory is ignored; distinct = (VCS option, ignored directory/file count buckets, depth of the deepest ignored directory, features of a deciding pattern)", 40)
+	floor := 40
+	if r.Counter("ii_scans_with_nonempty_ignored_directory") < 20 || r.Counter("ii_watched_ignored_directories") < 50 || r.Counter("i_pairs_with_several_matches") < 1000 {
+		// one of the two parts observed (almost) nothing — e.g. inotify was
+		// unavailable for every scan: no verdict rather than a silent pass.
+		fmt.Println("ERROR: C14 observed too few non-trivial scans / sensor watches / multi-match pairs")
+		floor = 1 << 30
+	}
+	r.Finish("(i) seeded random pattern lists x paths (two thirds derived from a pattern of the list) x directory flag; a pair is non-trivial if at least one pattern matches; distinct = (features of the deciding pattern, number of matching patterns bucket, deciding pattern is last, directory flag, depth, verdict). (ii) seeded random trees + lists scanned by the real core.Scan; a scan is non-trivial if a non-empty directory is ignored; distinct = (VCS option, ignored directory/file count buckets, depth of the deepest ignored directory, features of a deciding pattern)", floor)
 }
 
 func patternFeatures(p ignorex.MPattern) string {
@@ -86,6 +95,7 @@ func c14Match(r *vk.Run) {
 		done := 0
 		for done < per {
 			list := ignorex.MutagenList(rng, 6)
+			fmt.Printf("C14 match worker %d list %q\n", w, list)
 			var real ignore.Ignorer
 			var err error
 			r.Guard(map[string]any{"patterns": list, "step": "NewIgnorer"}, func() {
@@ -258,7 +268,7 @@ func c14Scan(r *vk.Run) {
 	sampled := 0
 	parallel(n, runtime.NumCPU(), func(i int) {
 		c := genScanCase(r, i)
-		fmt.Printf("C14 scan case %d: vcs=%v patterns=%q entries=%d\n", i, c.VCS, c.Patterns, len(c.Tree))
+		fmt.Printf("C14 scan case %d: vcs=%v patterns=%q tree=%q\n", i, c.VCS, c.Patterns, c.witness()["tree"])
 		root := filepath.Join(base, fmt.Sprintf("t%d", i))
 		defer os.RemoveAll(root)
 		if err := fsx.Materialize(root, c.Tree); err != nil {
@@ -434,13 +444,20 @@ func c14Scan(r *vk.Run) {
 		// Snapshot: each top-most ignored path is exactly one untracked entry.
 		content := state.Snapshot.Content
 		for q := range ignoredTop {
+			parent := ""
+			if i := strings.LastIndexByte(q, '/'); i >= 0 {
+				parent = q[:i]
+			}
+			if pe := gen.At(content, parent); pe == nil || pe.Kind != core.EntryKind_Directory {
+				continue // the parent itself is wrong; reported by the whole-snapshot comparison below
+			}
 			e := gen.At(content, q)
 			if e == nil || e.Kind != core.EntryKind_Untracked || len(e.Contents) != 0 {
 				w := c.witness()
 				w["path"] = q
-				w["entry"] = gen.Describe(e)
+				w["entry"] = describeEntry(e)
 				r.Violation(map[string]string{"part": "scan", "rule": "ignored-path-not-one-untracked-entry"},
-					fmt.Sprintf("%q is ignored by the last matching pattern but the snapshot holds %s there", q, gen.Describe(e)), w)
+					fmt.Sprintf("%q is ignored by the last matching pattern but the snapshot holds %s there", q, describeEntry(e)), w)
 			}
 		}
 		// Snapshot as a whole vs the independent walker driven by the reference.
@@ -455,8 +472,8 @@ func c14Scan(r *vk.Run) {
 		if ok, where := fsx.EqualLoose(want, content); !ok && !ignoredTop[where] {
 			w := c.witness()
 			w["path"] = where
-			w["expected"] = gen.Describe(gen.At(want, where))
-			w["real"] = gen.Describe(gen.At(content, where))
+			w["expected"] = describeEntry(gen.At(want, where))
+			w["real"] = describeEntry(gen.At(content, where))
 			rule := "snapshot-differs"
 			if we := gen.At(want, where); we != nil && we.Kind != core.EntryKind_Untracked {
 				if re := gen.At(content, where); re != nil && re.Kind == core.EntryKind_Untracked {
